@@ -2,6 +2,7 @@ package hostile
 
 import (
 	"context"
+	"encoding/base64"
 	"testing"
 
 	"github.com/ipfs/go-cid"
@@ -22,7 +23,8 @@ func (f fuzzTB) Fatalf(format string, args ...any) { f.t.Fatalf(format, args...)
 func (f fuzzTB) Logf(format string, args ...any)   { f.t.Logf(format, args...) }
 
 // FuzzC12Decode: arbitrary bytes as a stored block (kind selects how the block
-// is wrapped: dag-cbor, dag-pb with the bytes as data, raw, raw dag-pb bytes).
+// is wrapped: dag-cbor, dag-pb with the bytes as data, raw, raw dag-pb bytes,
+// or sealed with the shared link key as the link lists of a valid entry).
 // The oracle is the same as the structured check: no panic in any decoder, every
 // operation on a successfully decoded entry is safe, a load that meets the
 // block returns.
@@ -68,6 +70,9 @@ func FuzzC12Decode(f *testing.F) {
 	f.Add(uint8(1), []byte(`{"clock":null}`))
 	f.Add(uint8(1), []byte(`{"hash":"x","clock":{"id":"zz","time":1e99}}`))
 	f.Add(uint8(2), []byte(`{"ID":"a","Heads":[{"/":"x"}]}`))
+	for _, v := range []Val{Map(KV{"next", List(Link(1), Link(2))}, KV{"refs", List(Link(3))}), Map(KV{"next", List(Val{K: "badlink", B: []byte{0, 1}})}), Map(KV{"next", Null()}), Map()} {
+		f.Add(uint8(4), EncodeCBOR(v, true, PoolCid))
+	}
 
 	cborIO, linkIO, pbIO := world.IO(world.CodecDefault, 0), world.IO(world.CodecLinkKey, 0), world.IO(world.CodecPB, 0)
 	provider := world.Identity(0).Provider
@@ -80,9 +85,25 @@ func FuzzC12Decode(f *testing.F) {
 		store := fakeipfs.NewStore()
 		var hc cid.Cid
 		var raw []byte
-		switch kind % 4 {
+		switch kind % 5 {
 		case 0:
 			raw = data
+			hc = cidOf(raw)
+		case 4:
+			// the bytes are what a holder of the shared link key sealed as the link lists of an otherwise valid entry
+			hl := healthyLinkEntry(tb)
+			val := baseEntryVal(hl, 0, false)
+			nonce, err := base64.StdEncoding.DecodeString(hl.GetAdditionalData()[iface.KeyEncryptedLinksNonce])
+			if err != nil {
+				t.Fatal(err)
+			}
+			sealed, err := world.LinkKey(0).SealWithNonce(data, nonce)
+			if err != nil {
+				t.Fatal(err)
+			}
+			val.Set("enc_links", Str(base64.StdEncoding.EncodeToString(sealed)))
+			val.Set("enc_links_nonce", Str(base64.StdEncoding.EncodeToString(nonce)))
+			raw = EncodeCBOR(val, true, PoolCid)
 			hc = cidOf(raw)
 		case 1:
 			hc, raw = pbBlock(data)
